@@ -583,6 +583,7 @@ func sendCmd(args []string) int {
 	st := drv.NewStats()
 	defer func() { st.Write(c.Stats) }()
 	if c.Replay != "" {
+		st.Sample("replay of " + c.Replay)
 		for _, rc := range drv.ReadCases(c.Replay) {
 			if !runSendCase(tw, st, rc.ID, parseSendInit(rc.Init), rc.OpLines) {
 				break
